@@ -34,7 +34,7 @@ func Tokens(src []byte, root ast.Vertex, clean bool) (vs []V) {
 	add := func(key, what string) { vs = append(vs, V{key, what + " in " + q(src)}) }
 	for i, tr := range toks {
 		t := tr.Tok
-		loc := astx.KindName(tr.Owner) + "." + tr.Field
+		loc := astx.KindName(tr.Owner) + "." + tr.Field + emptyHeredoc(tr.Owner)
 		kind := "token"
 		kloc := loc
 		if tr.Free {
@@ -130,6 +130,14 @@ func Tokens(src []byte, root ast.Vertex, clean bool) (vs []V) {
 	return vs
 }
 
+// emptyHeredoc marks the locus "heredoc without a body" (a recorded, test-pinned scanner defect on 7.3+).
+func emptyHeredoc(n ast.Vertex) string {
+	if h, ok := n.(*ast.ScalarHeredoc); ok && h != nil && len(h.Parts) == 0 {
+		return " of a heredoc without body"
+	}
+	return ""
+}
+
 // RoundTrip — C02.
 func RoundTrip(src []byte, root ast.Vertex) (vs []V) {
 	out, pan := Print(root)
@@ -147,7 +155,7 @@ func RoundTrip(src []byte, root ast.Vertex) (vs []V) {
 	loc := "end of output"
 	for _, tr := range astx.Tokens(root) {
 		if tr.Tok.Position != nil && tr.Tok.Position.EndPos > i {
-			loc = astx.KindName(tr.Owner) + "." + tr.Field
+			loc = astx.KindName(tr.Owner) + "." + tr.Field + emptyHeredoc(tr.Owner)
 			if tr.Free {
 				loc = "free-floating " + tokID(tr.Tok)
 				if tr.Tok.Position.StartPos == 0 {
